@@ -1,7 +1,7 @@
 HOOK_COMMITS = ["9db45bf"]
 ENGINES = [
     {"name": "evalsrv+python-monitors", "path": "/verif/harness/src/bin/evalsrv.rs + /verif/driver",
-     "serves_properties": ["C01", "C05", "C06", "C08", "C17", "C18", "C19", "C20"], "kind_free_text": "batch evaluation server over the public rsjsonnet API (Program/Session/Lexer/Parser/SpanManager) observed by Python oracles (reference models, independent decoders, metamorphic relations)"},
+     "serves_properties": ["C01", "C03", "C05", "C06", "C08", "C10", "C11", "C17", "C18", "C19", "C20"], "kind_free_text": "batch evaluation server over the public rsjsonnet API (Program/Session/Lexer/Parser/SpanManager) observed by Python oracles (reference models, independent decoders, metamorphic relations)"},
     {"name": "gcheap", "path": "/verif/harness/src/bin/gcheap.rs",
      "serves_properties": ["C03"], "kind_free_text": "scripted-heap driver over the real collector (hook 2) with a reference reachability model; exhaustive small scope + random large scope; also run under Miri"},
 ]
@@ -59,5 +59,24 @@ CHECKS = {
         "text": "Exploration: parseInt/Octal/Hex exact up to 15 digits and within 1 ulp to 400 digits, non-digits at every position rejected; parseJson accept/reject and value equal a strict reference decoder on generated+mutated documents; parseYaml answers every input and equals parseJson on JSON documents; base64/UTF-8/md5/sha*/escapeString* equal the standard functions incl. block-boundary lengths and corrupted encodings.",
         "note": _BASE_NOTE + " Lone-surrogate escapes are excluded from the parseJson accept/reject comparison.",
         "design_ref": "DESIGN.md section 2 C20",
+    },
+    "C03": {
+        "technique": "runtime monitoring: (a) scripted-heap driver over the real collector vs a reachability model using a freed-event log (exhaustive small scope + random), (b) schedule-independence monitor replaying each program under never/default/every-n/random collection schedules via the GC-mode hook, (c) object-count conservation on a long-lived Program, (d) Miri on the heap driver (thorough)",
+        "engine": "gcheap + evalsrv",
+        "text": "Exploration with exhaustive sub-spaces (all op sequences up to length 6-7 over <= 3-4 nodes and <= 4-6 external weak/strong handles): after every collection exactly the unreachable nodes were destroyed, nothing outside a collection, bookkeeping reset, every held handle/edge viewable; complete outcome records (value, error, stack trace, traces) identical under 10 collection schedules for heap-stress templates and corpus mutants; a long-lived state returned to its baseline object count after every round.",
+        "note": _BASE_NOTE + " The facade's test node traces exactly its edge list; collection points are the evaluator's maybe_gc calls (one per evaluator step).",
+        "design_ref": "DESIGN.md section 2 C03",
+    },
+    "C10": {
+        "technique": "runtime monitoring: outcome-class monitor over (recursion shape x depth x frame limit) sweeps with monotonicity and limit-enforcement invariants; server death = native stack exhaustion",
+        "text": "Exploration over a grid: 28 recursion shapes x depths (0..10^5 in thorough) x 19 limits (0..10^6), 12 cycle shapes x lengths x limits, 23 flat workloads: outcomes only value/StackOverflow (cycles: InfiniteRecursion/StackOverflow), expected values, never a crash, success persists with the same value for every larger limit, a recursion d deep never succeeds with limit s when d >= 3s+20.",
+        "note": _BASE_NOTE + " 'However deeply or endlessly' is restated as bounded sweeps; builtins that traverse natively (prune, flattenDeepArray, deepJoin, mergePatch) are only required not to crash and to be monotone.",
+        "design_ref": "DESIGN.md section 2 C10",
+    },
+    "C11": {
+        "technique": "runtime monitoring: history checker against the sequential model 'fresh state per request' on recorded request/response histories of one long-lived Program; cross-process determinism replay",
+        "text": "Exploration with exhaustive sub-spaces (all permutations of five 4-request pools built around failure-then-reuse shapes): every response on the shared state equals the fresh-state response (value walk, manifest text, error kind/message/in-source spans, stack length), re-evaluating a thunk repeats its first outcome, and every history replays byte-identically in a second process.",
+        "note": _BASE_NOTE + " std.trace output is excluded (memoised values are rightly not traced again); a value obtained where the fresh state reports StackOverflow because earlier requests memoised the work is not counted as a changed answer.",
+        "design_ref": "DESIGN.md section 2 C11",
     },
 }
